@@ -88,6 +88,38 @@ func (e entCase) data() []byte {
 		for len(out) < n {
 			out = append(out, 0)
 		}
+	case "geoR":
+		// K symbols with counts falling geometrically by ratio C/100, the tail clamped to 1, the
+		// dominant symbol absorbing the remainder so that the total is exactly n (deep Huffman trees:
+		// ratios between 1/2 and the golden ratio defeat the fast code-length repair)
+		r := float64(e.C) / 100
+		k := max(e.K, 1)
+		w := make([]float64, k)
+		sum := 0.0
+		for i := range w {
+			w[i] = 1
+			for j := 0; j < i; j++ {
+				w[i] *= r
+			}
+			sum += w[i]
+		}
+		cnt := make([]int, k)
+		tot := 0
+		for i := k - 1; i >= 1; i-- {
+			cnt[i] = max(int(w[i]/sum*float64(n)), 1)
+			tot += cnt[i]
+		}
+		cnt[0] = max(n-tot, 1)
+		for s := 0; s < k && len(out) < n; s++ {
+			// symbol values are NOT in frequency order: symbol = (s*37+11) mod 256 style permutation
+			v := byte((s*37 + 11) % 251)
+			for j := 0; j < cnt[s] && len(out) < n; j++ {
+				out = append(out, v)
+			}
+		}
+		for len(out) < n {
+			out = append(out, byte(11))
+		}
 	case "raredom":
 		out = genRareDom(n, e.K, e.C, e.M, false)
 	}
@@ -183,7 +215,7 @@ var famEnt = NewFamily("C12.block", runEntropy)
 
 func init() {
 	register("C12", "exploration", func(c *Ctx) {
-		c.Rule("per codec the complete product: length in {0..40, 63..65, chunk-1, chunk, chunk+1, 2*chunk+7 for the codec's chunk size} + a ladder of 25 odd lengths in 4-16 KiB; histogram in {1 symbol, 2, 16, 255 flat, 256 flat, geometric, Fibonacci (deep Huffman trees), k rare symbols of count c + m dominant for k in {64,128,192,240,250}, c in 1..12 (quick: {1,3,7,12}), m in {1,2,4,8,16}}; arrangement in {sorted, interleaved, reversed}; the block starts at bit offset 3 and is followed by a 64-bit sentinel + 6 bits. Oracle: decoded == block, decoder consumed exactly the bits the encoder wrote, sentinel intact. Adaptive codecs (CM/TPAQ/TPAQX/FPAQ at 4 MiB) use the reduced grid in quick. Non-trivial = non-empty block")
+		c.Rule("per codec the complete product: length in {0..40, 63..65, chunk-1, chunk, chunk+1, 2*chunk+7 for the codec's chunk size} + a ladder of 25 odd lengths in 4-16 KiB; histogram in {1 symbol, 2, 16, 255 flat, 256 flat, geometric, Fibonacci and geometric with ratio 0.50..0.80 over 24..250 symbols at totals 2048..16384 (deep Huffman trees, code-length repair and its retry), k rare symbols of count c + m dominant for k in {64,128,192,240,250}, c in 1..12 (quick: {1,3,7,12}), m in {1,2,4,8,16}}; arrangement in {sorted, interleaved, reversed}; the block starts at bit offset 3 and is followed by a 64-bit sentinel + 6 bits. Oracle: decoded == block, decoder consumed exactly the bits the encoder wrote, sentinel intact. Adaptive codecs (CM/TPAQ/TPAQX/FPAQ at 4 MiB) use the reduced grid in quick. Non-trivial = non-empty block")
 		famEnt.Each(c, 0, func(emit func(entCase)) {
 			ladder := []int{}
 			for i := 0; i < 25; i++ {
@@ -245,6 +277,20 @@ func init() {
 						for _, v := range []int{0x00, 0x3F, 0x40, 0x7F, 0x80, 0xC3, 0xFF} {
 							for _, at := range []int{4<<20 - 1, 4 << 20} {
 								emit(entCase{Codec: codec, Len: 4<<20 + d, Hist: "256flat", Arr: "inter", Poke: v + 1, PokeAt: at})
+							}
+						}
+					}
+				}
+				// geometric histograms with ratios around 0.56 (code lengths beyond the Huffman limit after
+				// the first repair), totals incl. exactly 2048 (the renormalisation scale of the retry)
+				for _, n := range []int{2048, 4096, 6540, 16384} {
+					for _, k := range []int{12, 16, 20, 24, 32, 46, 64, 100, 145, 250} {
+						for _, r := range []int{50, 52, 54, 56, 57, 58, 59, 60, 62, 64, 66, 68, 70, 75, 80} {
+							for _, a := range []string{"sorted", "inter"} {
+								if adaptive && (a != "inter" || n > 4096 || !c.Thorough()) {
+									continue
+								}
+								emit(entCase{Codec: codec, Len: n, Hist: "geoR", K: k, C: r, Arr: a})
 							}
 						}
 					}
